@@ -219,6 +219,27 @@ def native_multicat_replay(dims, form):
             if bad:
                 return dict(reproduced=True, route="R1 (real MultiCategorical from a flat vector vs per-component numpy log-softmax)",
                             inputs={form: flat.tolist(), "action_dims": list(dims), "value": val.tolist()}, observed=dict(real=obs, expected=exp))
+        # zero-probability classes (a masked law, or probs with an exact 0): 0 log 0 = 0, the entropy stays finite = sum of the entropies of the remaining classes per component
+        big = [i for i, d_ in enumerate(dims) if d_ >= 2]
+        if big:
+            raw = rng.randn(sum(dims)).astype(np.float32)
+            keep = np.ones(sum(dims), bool)
+            keep[offs[big[0]]] = False                    # first class of the first component with >= 2 classes
+            pieces = [np.where(keep[o:o + d], raw[o:o + d], -np.inf) for o, d in zip(offs, dims)]
+            logp = [p - np.log(np.sum(np.exp(p))) for p in pieces]
+            exp_ent = float(-sum(np.sum(np.where(np.isfinite(l), np.exp(l) * np.where(np.isfinite(l), l, 0.0), 0.0)) for l in logp))
+            probs0 = np.concatenate([np.exp(l) for l in logp]).astype(np.float32)
+            variants = [("mask", lambda: LD.MultiCategorical(logits=jnp.asarray(raw), action_dims=dims).mask(jnp.asarray(keep)))]
+            if form == "probs":
+                variants.append(("probs with an exact 0", lambda: LD.MultiCategorical(probs=jnp.asarray(probs0), action_dims=dims)))
+            for vname, mk in variants:
+                try:
+                    ent = float(mk().entropy())
+                except Exception as e:
+                    ent = f"raised {type(e).__name__}: {e}"[:200]
+                if not (isinstance(ent, float) and np.isfinite(ent) and abs(ent - exp_ent) <= 1e-4):
+                    return dict(reproduced=True, route="R1 (real MultiCategorical with a zero-probability class vs per-component numpy entropy with 0 log 0 = 0)",
+                                inputs=dict(construction=vname, logits=raw.tolist(), keep=keep.tolist(), action_dims=list(dims)), observed=dict(entropy=ent, expected=exp_ent))
         # batched parameters (a leading batch axis): sample_and_log_prob / log_prob / entropy per batch row equal the unbatched law of that row
         for Bn in (2, len(dims), 4):
             raw = rng.randn(Bn, sum(dims)).astype(np.float32)
